@@ -234,8 +234,12 @@ FACET_CELL = {"interval": "vertex", "triangle": "interval", "quadrilateral": "in
               "hexahedron": "quadrilateral"}
 
 
+RIDGE_CELL = {"triangle": "vertex", "quadrilateral": "vertex", "tetrahedron": "interval", "hexahedron": "interval",
+              "prism": "interval"}
+
+
 def realise_facet(item):
-    """FCASE of FormSpace.tla -> form with one facet / vertex integral."""
+    """FCASE of FormSpace.tla -> form with one facet / vertex / ridge integral."""
     ensure_repo_on_path()
     import basix.ufl as bu
     import ufl
@@ -249,10 +253,11 @@ def realise_facet(item):
     V = ufl.FunctionSpace(dom, make_element(ek, cell, td))
     u, v = ufl.TrialFunction(V), ufl.TestFunction(V)
     x, n = ufl.SpatialCoordinate(dom), ufl.FacetNormal(dom)
-    M = {"ds": ufl.ds, "dS": ufl.dS, "dP": ufl.dP}[meas]
+    M = {"ds": ufl.ds, "dS": ufl.dS, "dP": ufl.dP, "dr": ufl.Measure("ridge")}[meas]
     which = rnd.randrange(8)
+    which = item.get("custom_which", which)          # a particular rule of CUSTOM[...] (e.g. the asymmetric interval rule)
     if rule == "custom":
-        dM = M(metadata=custom_md(FACET_CELL[cell], which))
+        dM = M(metadata=custom_md(RIDGE_CELL[cell] if meas == "dr" else FACET_CELL[cell], which))
     elif rule == "vertex":
         dM = M(scheme="vertex", degree=1)
     else:
@@ -268,7 +273,9 @@ def realise_facet(item):
     elif term == "coef":
         form = coef("P1") * inner(u, v) * dM
     elif term == "xw":
-        form = x[0] * n[td - 1] * u * v * dM
+        form = x[0] * u * v * dM if meas == "dr" else x[0] * n[td - 1] * u * v * dM      # no facet normal on a ridge
+    elif term == "rgrad":
+        form = inner(grad(u), grad(v)) * dM
     elif term == "nload":
         form = dot(coef("vP1"), n) * v * dM
     elif term == "fload":
